@@ -108,6 +108,32 @@ CHECKS = {
          "attributes set exactly the target to the clock, other ops may only touch involved entities, forced seconds "
          "read back exactly also after reopen; an attribute sweep covers the whole must-update table.",
          "The check verifies first that the clock is under control (else exit 2).", "DESIGN.md 4/C19"),
+
+ "C08": ("Hypothesis-generated tags / multi-tags / features over descriptor mixes vs. exact-rational region oracle",
+         "For arrays of rank 1-3 with every mix of sampled / range / set descriptors, tags and multi-tags with positions "
+         "on, between and outside samples, optional extents, both stop rules, every tag-unit / axis-unit prefix pair and "
+         "all three feature link types, the returned view must equal ref[np.ix_(I_1..I_k)] where I_d is computed with "
+         "exact Fractions from the statement, or be invalid/empty or OutOfBounds exactly when the oracle says so.",
+         "Recipes whose boundaries are not exactly representable are decided under a stated tolerance (about 21 %, "
+         "reported); (MultiTag, untagged, position out of range) is masked.", "DESIGN.md 4/C08"),
+ "C11": ("exhaustive version x mode x id x tag lattice + differential read-write twin for read-only immutability",
+         "All 4752 header combinations are enumerated against the statement written as a function (refused opens must "
+         "leave the SHA-256 unchanged); on generated files every mutator of the op grammar is attempted on a read-only "
+         "handle and on a read-write twin: what changes the twin must raise, the read-only walk and bytes never change; "
+         "overwrite / read-write / missing-path semantics are checked on generated files.",
+         "A current-layout file relabelled as pre-1.1.1 is not a genuine old file: Property nodes are masked there.",
+         "DESIGN.md 4/C11"),
+ "C17": ("Hypothesis-generated histories, every flush/close point a crash point: forked writer SIGKILLed after flush()/close(), walk oracle",
+         "For each generated program and each of its flush points (and the final close) a forked writer replays the "
+         "history, records the canonical walk, calls flush()/close() and kills itself with SIGKILL; the parent reopens "
+         "read-only and read-write and requires the recorded walk. A control arm without the flush measures that losses "
+         "are observable.", "Process-kill durability only (page cache survives), as the statement says.", "DESIGN.md 4/C17"),
+ "C20": ("Hypothesis-generated copy scenarios (kind x destination x id policy x rename x children) + mutations, walk-modulo-id-map oracle",
+         "The copy's walk must equal the source's after renaming and applying an id map that is a function, injective, "
+         "the identity for kept ids and fresh / unique otherwise; internal links stay inside the copy; the returned handle "
+         "is the copy; refused copies change nothing; mutations of either side are invisible on the other.",
+         "Timestamps are not compared; link targets outside the copied subtree are compared through the API only.",
+         "DESIGN.md 4/C20"),
 }
 PENDING = {}
 LEVELS = {"C12": "fault_enumeration", "C18": "fault_enumeration", "C17": "fault_enumeration"}
